@@ -93,6 +93,19 @@ Fixpoint fo_rnode_eqb (a b : rnode) : bool :=
          | _, _ => false
          end) kids kids2
   end.
+(* the fields of a node a parent's reducer can see without looking into the node's children *)
+Definition fo_head_eqb (a b : rnode) : bool :=
+  match a, b with
+  | RN t o ch m n str st kids, RN t2 o2 ch2 m2 n2 str2 st2 kids2 =>
+      (t =? t2) && (o =? o2) && (ch =? ch2) && (m =? m2) && (n =? n2) && zlist_eqb str str2 && fo_oset_eqb st st2 &&
+      Nat.eqb (length kids) (length kids2)
+  end.
+Fixpoint fo_heads_eqb (l1 l2 : list rnode) : bool :=
+  match l1, l2 with
+  | [], [] => true
+  | x :: r1, y :: r2 => fo_head_eqb x y && fo_heads_eqb r1 r2
+  | _, _ => false
+  end.
 Definition fo_kids_eqb (l1 l2 : list rnode) : bool :=
   (fix go (l1 l2 : list rnode) : bool :=
      match l1, l2 with
@@ -717,9 +730,10 @@ with fo_reduce (fuel : nat) (g : Z) (lite : bool) (mode : Z) (ptype : Z) (x : rn
     else mand x1
   end.
 
-(* every node is reduced once, after its children (addChild); the root capture never is.  A node none of whose
-   children changed has been through its mandatory reducer with exactly these children already (in the gate-31
-   parse), so only the node types with a gated branch are reduced again then; the others are left as they are
+(* every node is reduced once, after its children (addChild); the root capture never is.  A node whose children
+   still LOOK the same to a reducer (same fields, same number of children: a gated branch only changed something
+   deeper, in place) has been through its mandatory reducer with these children already, in the gate-31 parse,
+   so only the node types with a gated branch are reduced again then; the others keep their shape
    (re-running a mandatory reducer on a finished tree is NOT the identity: a right-to-left concatenation is
    reversed after its reduction, nested groups are flattened after the adjacent loops were merged). *)
 Definition fo_has_gated_branch (t : Z) : bool :=
@@ -729,7 +743,7 @@ Fixpoint fo_rr (fuel : nat) (g : Z) (lite : bool) (mode : Z) (ptype : Z) (x : rn
   | O => Fuel
   | S f =>
       do kids' <- fo_map_res (fo_rr f g lite mode (n_t x)) (n_kids x) ;
-      if fo_kids_eqb kids' (n_kids x) && negb (fo_has_gated_branch (n_t x)) then Ok x
+      if fo_heads_eqb kids' (n_kids x) && negb (fo_has_gated_branch (n_t x)) then Ok (set_kids x kids')
       else fo_reduce (S (S f)) g lite mode ptype (set_kids x kids')
   end.
 
